@@ -2,7 +2,8 @@
    preserves WF; histories of proved calls preserve WF; refutation witnesses. *)
 From Coq Require Import ZArith List Bool PArith FMapPositive Lia.
 From XV Require Import C01.Model C01.Spec C01.ProofsBase C01.ProofsWfb C01.ProofsFrame C01.ProofsUses
-  C01.ProofsOperands C01.ProofsRauw C01.ProofsSetOperands C01.ProofsDll C01.ProofsOps C01.ProofsBlocks.
+  C01.ProofsOperands C01.ProofsRauw C01.ProofsSetOperands C01.ProofsSetSuccessors C01.ProofsDll C01.ProofsOps
+  C01.ProofsBlocks C01.ProofsOpRegions C01.ProofsMove C01.ProofsOpLists C01.ProofsBlockLists C01.ProofsArgs.
 Import ListNotations.
 Local Open Scope Z_scope.
 
@@ -15,29 +16,54 @@ Proof. apply wf_b_sound. vm_compute. reflexivity. Qed.
    correspondence check + evaluation of wf_b on the model after every call) *)
 Definition proved_call (c : call) : bool :=
   match c with
-  | CSetOperands _ _ | COperandSetItem _ _ _ | CSuccessorSetItem _ _ _
+  | CSetOperands _ _ | CSetSuccessors _ _ | COperandSetItem _ _ _ | CSuccessorSetItem _ _ _
+  | CAddRegion _ _ | CDetachRegion _ _ | CDetachRegionIdx _ _
   | CReplaceAllUsesWith _ _ | CReplaceUsesWithIf _ _ _ | CValueErase _ _
   | CPrReplaceAllUsesWith _ _ _ | CPrReplaceUsesWithIf _ _ _
   | CInsertOpAfter _ _ _ | CInsertOpBefore _ _ _ | CAddOp _ _ | CDetachOp _ _ | COpDetach _ => true
-  | CDetachBlock _ _ | CDetachBlockIdx _ _ => true
-  (* the block-list calls are proved for a single block *)
-  | CAddBlock _ [_] | CInsertBlockBefore _ [_] _ | CRwInsertBlock [_] _ _ => true
+  | CDetachBlock _ _ | CDetachBlockIdx _ _ | CMoveBlocks _ _ | CMoveBlocksBefore _ _ | CRwInlineRegion _ _ _ _ => true
+  | CAddOps _ _ | CInsertOpsBefore _ _ _ | CInsertOpsAfter _ _ _ | CRwInsertOp _ _ _ _ => true
+  | CInsertArg _ _ | CPrInsertBlockArgument _ _ | CEraseArg _ _ _ | CPrEraseBlockArgument _ _ => true
+  | CAddBlock _ _ | CInsertBlockBefore _ _ _ | CInsertBlockAfter _ _ _ | CInsertBlock _ _ _ | CRwInsertBlock _ _ _ => true
   | _ => false
   end.
+
+(* a live block together with its (live) parent region *)
+Definition blk_in_live_region (s : state) (t : bid) : Prop :=
+  exists tx region, PM.find t (s_blocks s) = Some tx /\ b_erased tx = false /\
+                    b_parent tx = Some region /\ reg_live s region.
 
 (* "objects erased by a successful erase call are not used again", per constructor *)
 Definition args_live (s : state) (c : call) : Prop :=
   match c with
-  | CSetOperands o _ | COperandSetItem o _ _ | CSuccessorSetItem o _ _ => op_live s o
+  | CSetOperands o _ | CSetSuccessors o _ | COperandSetItem o _ _ | CSuccessorSetItem o _ _
+  | CDetachRegionIdx o _ => op_live s o
   | CInsertOpAfter b _ ex | CInsertOpBefore b _ ex => blk_live s b /\ op_live s ex
   | CAddOp b o | CDetachOp b o => blk_live s b /\ op_live s o
   | COpDetach o => op_live s o /\
                    (forall x b, PM.find o (s_ops s) = Some x -> o_parent x = Some b -> blk_live s b)
   | CDetachBlock r b => reg_live s r /\ blk_live s b
   | CDetachBlockIdx r _ => reg_live s r
-  | CAddBlock r [b] => reg_live s r /\ blk_live s b
-  | CInsertBlockBefore r [b] t => reg_live s r /\ blk_live s b /\ blk_live s t
-  | CRwInsertBlock [b] r ib => reg_live s r /\ blk_live s b /\ match ib with Some t => blk_live s t | None => True end
+  | CInsertArg b _ | CPrInsertBlockArgument b _ => blk_live s b
+  | CEraseArg b arg _ => blk_live s b /\ val_live s arg
+  | CPrEraseBlockArgument arg _ =>
+      val_live s arg /\ (forall vr b i, PM.find arg (s_values s) = Some vr -> v_kind vr = KArg b i -> blk_live s b)
+  | CAddOps b ops => blk_live s b /\ (forall o, In o ops -> op_live s o)
+  | CInsertOpsBefore b ops ex => blk_live s b /\ op_live s ex
+  | CInsertOpsAfter b ops ex => blk_live s b /\ op_live s ex /\ (forall o, In o ops -> op_live s o)
+  | CRwInsertOp _ ops b ib => blk_live s b /\ (forall o, In o ops -> op_live s o) /\ (forall e, ib = Some e -> op_live s e)
+  | CAddBlock r blocks => reg_live s r /\ (forall b, In b blocks -> blk_live s b)
+  | CInsertBlockBefore r blocks t => reg_live s r /\ blk_live s t /\ (forall b, In b blocks -> blk_live s b)
+  | CInsertBlockAfter r blocks t =>
+      reg_live s r /\ blk_live s t /\
+      (forall tr r', PM.find t (s_blocks s) = Some tr -> b_parent tr = Some r' -> reg_live s r') /\
+      (forall b, In b blocks -> blk_live s b)
+  | CInsertBlock r blocks _ => reg_live s r /\ (forall b, In b blocks -> blk_live s b)
+  | CRwInsertBlock blocks r ib => reg_live s r /\ (forall b, In b blocks -> blk_live s b) /\ (forall t, ib = Some t -> blk_live s t)
+  | CMoveBlocks r dest => reg_live s r /\ reg_live s dest
+  | CMoveBlocksBefore r t => reg_live s r /\ blk_in_live_region s t
+  | CRwInlineRegion _ r dest ib => reg_live s r /\ reg_live s dest /\
+                                   match ib with Some t => blk_live s t | None => True end
   | _ => True
   end.
 
@@ -52,45 +78,124 @@ Proof.
   apply ret_ok in H2 as [-> _]. eauto.
 Qed.
 
+Lemma check_bip_ok : forall region ib s s' r, check_block_insert_point region ib s = (s', Ok r) ->
+  s' = s /\ forall t, ib = Some t -> exists br, PM.find t (s_blocks s) = Some br /\ b_parent br = Some region.
+Proof.
+  intros region ib s s' r H. unfold check_block_insert_point in H. destruct ib as [t|].
+  - apply bind_ok in H as (s1 & br & Hg & H). apply getB_ok in Hg as [-> F].
+    destruct (opt_eqb (b_parent br) (Some region)) eqn:P; simpl in H; [|exfalso; eapply raise_ok; eauto].
+    apply ret_ok in H as [-> _]. apply opt_eqb_eq in P. split; [reflexivity|]. intros t0 E. injection E as <-. eauto.
+  - apply ret_ok in H as [-> _]. split; [reflexivity|]. intros t0 E. discriminate.
+Qed.
+
+(* one wrapper per proved constructor, all of the same shape *)
+Definition step_ok (c : call) : Prop := forall s s' p,
+  WF s -> proved_call c = true -> args_live s c -> do_call c s = (s', Ok p) -> WF s'.
+
+Ltac w_unit := intros s s' p W PC AL E; simpl in E, AL; apply unit_ok in E.
+Ltac w_lift := intros s s' p W PC AL E; simpl in E, AL; apply lift_ok in E as (a & E).
+
+Lemma W_CSetOperands : forall o new, step_ok (CSetOperands o new).
+Proof. intros o new. w_unit. exact (set_operands_WF _ _ _ _ _ W AL E). Qed.
+Lemma W_CSetSuccessors : forall o new, step_ok (CSetSuccessors o new).
+Proof. intros o new. w_unit. exact (set_successors_WF _ _ _ _ _ W AL E). Qed.
+Lemma W_COperandSetItem : forall o i v, step_ok (COperandSetItem o i v).
+Proof. intros o i v. w_unit. exact (operands_setitem_WF _ _ _ _ _ _ W AL E). Qed.
+Lemma W_CSuccessorSetItem : forall o i v, step_ok (CSuccessorSetItem o i v).
+Proof. intros o i v. w_unit. exact (successors_setitem_WF _ _ _ _ _ _ W AL E). Qed.
+Lemma W_CAddRegion : forall o r, step_ok (CAddRegion o r).
+Proof. intros o r. w_unit. exact (add_region_WF_gen _ _ _ _ _ W E). Qed.
+Lemma W_CDetachRegion : forall o r, step_ok (CDetachRegion o r).
+Proof. intros o r. w_lift. exact (detach_region_WF_gen _ _ _ _ _ W E). Qed.
+Lemma W_CDetachRegionIdx : forall o i, step_ok (CDetachRegionIdx o i).
+Proof. intros o i. w_lift. exact (detach_region_idx_WF _ _ _ _ _ W AL E). Qed.
+Lemma W_COpDetach : forall o, step_ok (COpDetach o).
+Proof.
+  intros o. w_unit. destruct AL as [OL BL]. unfold op_detach in E.
+  apply bind_ok in E as (s0 & x & Hg & E). apply getO_ok in Hg as [-> F].
+  destruct (o_parent x) as [b|] eqn:P; [|exfalso; eapply raise_ok; eauto].
+  apply bind_ok in E as (s1 & a & E & R). apply ret_ok in R as [-> _].
+  exact (detach_op_WF _ _ _ _ _ W (BL x b F P) OL E).
+Qed.
+Lemma W_CReplaceAllUsesWith : forall v w, step_ok (CReplaceAllUsesWith v w).
+Proof. intros v w. w_unit. exact (replace_all_uses_with_WF _ _ _ _ _ W E). Qed.
+Lemma W_CReplaceUsesWithIf : forall v w sel, step_ok (CReplaceUsesWithIf v w sel).
+Proof. intros v w sel. w_unit. exact (replace_uses_with_if_WF _ _ _ _ _ _ W E). Qed.
+Lemma W_CValueErase : forall v safe, step_ok (CValueErase v safe).
+Proof. intros v safe. w_unit. exact (value_erase_WF _ _ _ _ _ W E). Qed.
+Lemma W_CInsertOpAfter : forall b n e, step_ok (CInsertOpAfter b n e).
+Proof. intros b n e. w_unit. destruct AL as [A1 A2]. exact (insert_op_after_WF _ _ _ _ _ _ W A1 A2 E). Qed.
+Lemma W_CInsertOpBefore : forall b n e, step_ok (CInsertOpBefore b n e).
+Proof. intros b n e. w_unit. destruct AL as [A1 A2]. exact (insert_op_before_WF _ _ _ _ _ _ W A1 A2 E). Qed.
+Lemma W_CAddOp : forall b o, step_ok (CAddOp b o).
+Proof. intros b o. w_unit. destruct AL as [A1 A2]. exact (add_op_WF _ _ _ _ _ W A1 A2 E). Qed.
+Lemma W_CDetachOp : forall b o, step_ok (CDetachOp b o).
+Proof. intros b o. w_lift. destruct AL as [A1 A2]. exact (detach_op_WF _ _ _ _ _ W A1 A2 E). Qed.
+Lemma W_CInsertArg : forall b i, step_ok (CInsertArg b i).
+Proof. intros b i. w_lift. exact (insert_arg_WF _ _ _ _ _ W AL E). Qed.
+Lemma W_CPrInsertBlockArgument : forall b i, step_ok (CPrInsertBlockArgument b i).
+Proof. intros b i. w_lift. exact (insert_arg_WF _ _ _ _ _ W AL E). Qed.
+Lemma W_CEraseArg : forall b v safe, step_ok (CEraseArg b v safe).
+Proof. intros b v safe. w_unit. destruct AL as [A1 A2]. exact (erase_arg_WF _ _ _ _ _ _ W A1 A2 E). Qed.
+Lemma W_CPrEraseBlockArgument : forall v safe, step_ok (CPrEraseBlockArgument v safe).
+Proof. intros v safe. w_unit. destruct AL as [A1 A2]. exact (pr_erase_block_argument_WF _ _ _ _ _ W A1 A2 E). Qed.
+Lemma W_CAddOps : forall b ops, step_ok (CAddOps b ops).
+Proof. intros b ops. w_unit. destruct AL as [A1 A2]. exact (add_ops_WF _ _ _ _ _ W A1 A2 E). Qed.
+Lemma W_CInsertOpsBefore : forall b ops e, step_ok (CInsertOpsBefore b ops e).
+Proof. intros b ops e. w_unit. destruct AL as [A1 A2]. exact (insert_ops_before_WF _ _ _ _ _ _ W A1 A2 E). Qed.
+Lemma W_CInsertOpsAfter : forall b ops e, step_ok (CInsertOpsAfter b ops e).
+Proof. intros b ops e. w_unit. destruct AL as (A1 & A2 & A3). exact (insert_ops_after_WF _ _ _ _ _ _ W A1 A2 A3 E). Qed.
+Lemma W_CRwInsertOp : forall pr ops b ib, step_ok (CRwInsertOp pr ops b ib).
+Proof. intros pr ops b ib. w_unit. destruct AL as (A1 & A2 & A3). exact (rw_insert_op_WF _ _ _ _ _ _ W A1 A2 A3 E). Qed.
+Lemma W_CAddBlock : forall r blocks, step_ok (CAddBlock r blocks).
+Proof. intros r blocks. w_unit. destruct AL as [A1 A2]. exact (add_block_WF _ _ _ _ _ W A1 A2 E). Qed.
+Lemma W_CInsertBlockBefore : forall r blocks t, step_ok (CInsertBlockBefore r blocks t).
+Proof. intros r blocks t. w_unit. destruct AL as (A1 & A2 & A3). exact (insert_block_before_WF _ _ _ _ _ _ W A1 A2 A3 E). Qed.
+Lemma W_CInsertBlockAfter : forall r blocks t, step_ok (CInsertBlockAfter r blocks t).
+Proof. intros r blocks t. w_unit. destruct AL as (A1 & A2 & A3 & A4). exact (insert_block_after_WF _ _ _ _ _ _ W A1 A2 A3 A4 E). Qed.
+Lemma W_CInsertBlock : forall r blocks i, step_ok (CInsertBlock r blocks i).
+Proof. intros r blocks i. w_unit. destruct AL as [A1 A2]. exact (insert_block_WF _ _ _ _ _ _ W A1 A2 E). Qed.
+Lemma W_CDetachBlock : forall r b, step_ok (CDetachBlock r b).
+Proof. intros r b. w_lift. destruct AL as [A1 A2]. exact (detach_block_WF _ _ _ _ _ W A1 A2 E). Qed.
+Lemma W_CDetachBlockIdx : forall r i, step_ok (CDetachBlockIdx r i).
+Proof. intros r i. w_lift. exact (detach_block_idx_WF _ _ _ _ _ W AL E). Qed.
+Lemma W_CMoveBlocks : forall r d, step_ok (CMoveBlocks r d).
+Proof. intros r d. w_unit. destruct AL as [A1 A2]. exact (move_blocks_WF _ _ _ _ _ W A1 A2 E). Qed.
+Lemma W_CMoveBlocksBefore : forall r t, step_ok (CMoveBlocksBefore r t).
+Proof.
+  intros r t. w_unit. destruct AL as [A1 (tx & region & F & Et & Pt & RL)].
+  exact (move_blocks_before_WF _ _ _ _ _ _ _ W A1 F Et Pt RL E).
+Qed.
+Lemma W_CRwInsertBlock : forall blocks region ib, step_ok (CRwInsertBlock blocks region ib).
+Proof. intros blocks region ib. w_unit. destruct AL as (A1 & A2 & A3). exact (rw_insert_block_WF _ _ _ _ _ _ W A1 A2 A3 E). Qed.
+Lemma W_CRwInlineRegion : forall pr r dest ib, step_ok (CRwInlineRegion pr r dest ib).
+Proof.
+  intros pr r dest ib. w_unit. destruct AL as (A1 & A2 & A3).
+  unfold rw_inline_region in E. apply bind_ok in E as (s0 & ? & Hc & E).
+  destruct (check_bip_ok _ _ _ _ _ Hc) as [-> CK]. destruct ib as [t|].
+  - destruct (CK t eq_refl) as (br & F & P). destruct A3 as (br' & F' & Eb). rewrite F in F'. injection F' as <-.
+    exact (move_blocks_before_WF _ _ _ _ _ _ _ W A1 F Eb P A2 E).
+  - exact (move_blocks_WF _ _ _ _ _ W A1 A2 E).
+Qed.
+Lemma W_CPrReplaceAllUsesWith : forall v w safe, step_ok (CPrReplaceAllUsesWith v w safe).
+Proof. intros v w safe. w_unit. exact (pr_replace_all_uses_with_WF _ _ _ _ _ _ W E). Qed.
+Lemma W_CPrReplaceUsesWithIf : forall v w sel, step_ok (CPrReplaceUsesWithIf v w sel).
+Proof. intros v w sel. w_unit. exact (pr_replace_uses_with_if_WF _ _ _ _ _ _ W E). Qed.
+
+Create HintDb wstep discriminated.
+#[export] Hint Resolve W_CSetOperands W_CSetSuccessors W_COperandSetItem W_CSuccessorSetItem W_CAddRegion W_CDetachRegion
+  W_CDetachRegionIdx W_COpDetach W_CReplaceAllUsesWith W_CReplaceUsesWithIf W_CValueErase W_CInsertOpAfter W_CInsertOpBefore
+  W_CAddOp W_CDetachOp W_CInsertArg W_CPrInsertBlockArgument W_CEraseArg W_CPrEraseBlockArgument W_CAddOps W_CInsertOpsBefore W_CInsertOpsAfter W_CRwInsertOp W_CAddBlock W_CInsertBlockBefore
+  W_CInsertBlockAfter W_CInsertBlock W_CDetachBlock W_CDetachBlockIdx W_CMoveBlocks W_CMoveBlocksBefore
+  W_CRwInsertBlock W_CRwInlineRegion W_CPrReplaceAllUsesWith W_CPrReplaceUsesWithIf : wstep.
+
 Theorem step_preserves : forall s c p,
   WF s -> proved_call c = true -> args_live s c -> snd (step s c) = Ok p -> WF (fst (step s c)).
 Proof.
   intros s c p W PC AL H. unfold step in *. destruct (do_call c s) as [s' r] eqn:E. simpl in *. subst r.
-  destruct c; simpl in PC; try discriminate; simpl in E, AL.
-  - apply unit_ok in E. exact (set_operands_WF _ _ _ _ _ W AL E).
-  - apply unit_ok in E. exact (operands_setitem_WF _ _ _ _ _ _ W AL E).
-  - apply unit_ok in E. exact (successors_setitem_WF _ _ _ _ _ _ W AL E).
-  - apply unit_ok in E. destruct AL as [OL BL]. unfold op_detach in E.
-    apply bind_ok in E as (s0 & x & Hg & E). apply getO_ok in Hg as [-> F].
-    destruct (o_parent x) as [b|] eqn:P; [|exfalso; eapply raise_ok; eauto].
-    apply bind_ok in E as (s1 & a & E & R). apply ret_ok in R as [-> _].
-    exact (detach_op_WF _ _ _ _ _ W (BL x b F P) OL E).
-  - apply unit_ok in E. exact (replace_all_uses_with_WF _ _ _ _ _ W E).
-  - apply unit_ok in E. exact (replace_uses_with_if_WF _ _ _ _ _ _ W E).
-  - apply unit_ok in E. exact (value_erase_WF _ _ _ _ _ W E).
-  - apply unit_ok in E. destruct AL as [A1 A2]. exact (insert_op_after_WF _ _ _ _ _ _ W A1 A2 E).
-  - apply unit_ok in E. destruct AL as [A1 A2]. exact (insert_op_before_WF _ _ _ _ _ _ W A1 A2 E).
-  - apply unit_ok in E. destruct AL as [A1 A2]. exact (add_op_WF _ _ _ _ _ W A1 A2 E).
-  - apply lift_ok in E as (a & E). destruct AL as [A1 A2]. exact (detach_op_WF _ _ _ _ _ W A1 A2 E).
-  - (* CAddBlock *) destruct blocks as [|b [|]]; try discriminate. apply unit_ok in E. destruct AL as [A1 A2].
-    exact (add_block1_WF _ _ _ _ _ W A1 A2 E).
-  - (* CInsertBlockBefore *) destruct blocks as [|b [|]]; try discriminate. apply unit_ok in E. destruct AL as (A1 & A2 & A3).
-    exact (insert_block_before1_WF _ _ _ _ _ _ W A1 A2 A3 E).
-  - (* CDetachBlock *) apply lift_ok in E as (a & E). destruct AL as [A1 A2]. exact (detach_block_WF _ _ _ _ _ W A1 A2 E).
-  - (* CDetachBlockIdx *) apply lift_ok in E as (a & E). exact (detach_block_idx_WF _ _ _ _ _ W AL E).
-  - (* CRwInsertBlock *) destruct blocks as [|b [|]]; try discriminate. apply unit_ok in E. destruct AL as (A1 & A2 & A3).
-    unfold rw_insert_block in E. apply bind_ok in E as (s0 & ? & Hc & E).
-    assert (s0 = s).
-    { unfold check_block_insert_point in Hc. destruct insert_before as [t|].
-      - apply bind_ok in Hc as (s1 & br & Hg & Hc). apply getB_ok in Hg as [-> _].
-        destruct (negb (opt_eqb (b_parent br) (Some region))); [exfalso; eapply raise_ok; eauto|].
-        apply ret_ok in Hc as [-> _]. reflexivity.
-      - apply ret_ok in Hc as [-> _]. reflexivity. }
-    subst s0. destruct insert_before as [t|].
-    + exact (insert_block_before1_WF _ _ _ _ _ _ W A1 A2 A3 E).
-    + exact (add_block1_WF _ _ _ _ _ W A1 A2 E).
-  - apply unit_ok in E. exact (pr_replace_all_uses_with_WF _ _ _ _ _ _ W E).
-  - apply unit_ok in E. exact (pr_replace_uses_with_if_WF _ _ _ _ _ _ W E).
+  destruct c; try (simpl in PC; discriminate);
+    match goal with E0 : do_call ?c0 _ = _ |- _ =>
+      let L := fresh "L" in assert (L : step_ok c0) by auto with wstep; exact (L _ _ _ W PC AL E0) end.
 Qed.
 
 (* a history all of whose calls are proved constructors applied to live arguments and none of
